@@ -363,7 +363,7 @@ PROPS["C11"] = {
              "panic at position k, capacities where bucket b+1 is allocated while bucket b never is - natively, under ASan+LSan and under Miri with the leak checker; Nucleo level random and "
              "directed histories (restart, clones, injectors dropped in any order, held writers, background bursts) natively and under ASan+LSan. distinct_nontrivial = distinct history shapes"),
     "require": {"any": {"c11.gap-shapes": 50, "c11.payloads-created": 10000, "histories": 500, "restarts.clear": 10, "restarts.keep": 10,
-                         "c11.plain-data-items-with-filled-columns": 1000, "c11.histories-where-injectors-outlive-the-matcher": 20,
+                         "c11.plain-data-items-with-filled-columns": 1000, "c11.long-gaps-inside-a-large-bucket": 5, "c11.histories-where-injectors-outlive-the-matcher": 20,
                          "directed.restart.twice-without-tick.sole-owner": 5, "directed.restart.first-run-on-the-new-stream-cancelled": 3}},
     "assumptions": ["column allocations of a panicking callback are not judged (the property does not promise them)",
                     "after restart the matcher may let go of the old stream at any time; only injector handles count as 'can reach' for the early-drop rule of old streams",
